@@ -1,0 +1,10 @@
+// +build verif
+
+package leanhelixterm
+
+import "github.com/orbs-network/lean-helix-go/services/termincommittee"
+
+// Verification hook (build tag "verif" only): read-only access to the in-committee term.
+func (lht *LeanHelixTerm) VerifTermInCommittee() *termincommittee.TermInCommittee {
+	return lht.termInCommittee
+}
